@@ -37,14 +37,20 @@ theorem isort_keys_sorted (l : List Lint) : ((isort l).map Lint.key).Pairwise ke
   rw [List.pairwise_map]
   exact (isort_key_sorted l).imp (fun h => h)
 
-/-- **the sorted key sequence is a function of the multiset of spans** -/
-theorem isort_keys_perm_invariant (l₁ l₂ : List Lint) (h : l₁.Perm l₂) :
+/-- **the sorted key sequence is a function of the multiset of spans** — stated for two lists
+whose KEY lists are permutations of each other (the payloads may differ altogether) -/
+theorem isort_keys_keyperm_invariant (l₁ l₂ : List Lint)
+    (h : (l₁.map Lint.key).Perm (l₂.map Lint.key)) :
     (isort l₁).map Lint.key = (isort l₂).map Lint.key := by
   apply List.Perm.eq_of_pairwise (le := keyLe)
   · intro a b _ _ h1 h2; exact keyLe_antisymm a b h1 h2
   · exact isort_keys_sorted l₁
   · exact isort_keys_sorted l₂
-  · exact (((isort_perm l₁).trans h).trans (isort_perm l₂).symm).map _
+  · exact ((((isort_perm l₁).map Lint.key).trans h).trans ((isort_perm l₂).map Lint.key).symm)
+
+theorem isort_keys_perm_invariant (l₁ l₂ : List Lint) (h : l₁.Perm l₂) :
+    (isort l₁).map Lint.key = (isort l₂).map Lint.key :=
+  isort_keys_keyperm_invariant l₁ l₂ (h.map _)
 
 /-- the sweep reads spans only: lists with the same key sequence keep the same key sequence -/
 theorem sweep_keys_congr (cur : Nat) (xs ys : List Lint)
@@ -68,18 +74,21 @@ theorem sweep_keys_congr (cur : Nat) (xs ys : List Lint)
       · simp only [List.map_cons, Lint.key, hs, he, List.cons.injEq, true_and]
         exact ih y.e ys ht
 
-/-- **C13 over multisets**: the spans that survive overlap removal, in order, do not depend on
-the order in which the lints were handed over. -/
-theorem removeOverlaps_spans_perm_invariant (l₁ l₂ : List Lint) (h : l₁.Perm l₂) :
+/-- **C13 over multisets**, payload-free form: two lint lists whose span lists are permutations
+of each other keep the same spans, in the same order. -/
+theorem removeOverlaps_spans_keyperm_invariant (l₁ l₂ : List Lint)
+    (h : (l₁.map Lint.key).Perm (l₂.map Lint.key)) :
     (removeOverlaps l₁).map Lint.key = (removeOverlaps l₂).map Lint.key := by
-  have hlen : l₁.length = l₂.length := h.length_eq
+  have hlen : l₁.length = l₂.length := by simpa using h.length_eq
   unfold removeOverlaps
   by_cases h2 : l₁.length < 2
   · have h2' : l₂.length < 2 := by omega
     rw [if_pos h2, if_pos h2']
     match l₁, l₂, h2, h2', h with
     | [], [], _, _, _ => rfl
-    | [x], [y], _, _, h => rw [List.singleton_perm_singleton.mp h]
+    | [x], [y], _, _, h =>
+      simp only [List.map_cons, List.map_nil] at h ⊢
+      rw [List.singleton_perm_singleton.mp h]
     | [], _ :: _, _, _, h => simp at h
     | _ :: _, [], _, _, h => simp at h
     | [_], _ :: _ :: _, _, h2', _ => simp at h2'; omega
@@ -88,7 +97,13 @@ theorem removeOverlaps_spans_perm_invariant (l₁ l₂ : List Lint) (h : l₁.Pe
     rw [if_neg h2, if_neg h2']
     simp only []
     rw [removeIndices_sweepIdx, removeIndices_sweepIdx]
-    exact sweep_keys_congr 0 _ _ (isort_keys_perm_invariant l₁ l₂ h)
+    exact sweep_keys_congr 0 _ _ (isort_keys_keyperm_invariant l₁ l₂ h)
+
+/-- **C13 over multisets**: the spans that survive overlap removal, in order, do not depend on
+the order in which the lints were handed over. -/
+theorem removeOverlaps_spans_perm_invariant (l₁ l₂ : List Lint) (h : l₁.Perm l₂) :
+    (removeOverlaps l₁).map Lint.key = (removeOverlaps l₂).map Lint.key :=
+  removeOverlaps_spans_keyperm_invariant l₁ l₂ (h.map _)
 
 /-- non-vacuity: a non-trivial permutation with nested, touching, equal and zero-width spans -/
 example : removeOverlaps [⟨0,5,1⟩, ⟨3,6,2⟩, ⟨5,5,3⟩, ⟨5,9,4⟩, ⟨2,2,5⟩, ⟨0,5,6⟩]
